@@ -1,6 +1,7 @@
 package main
 
 import (
+	"go/constant"
 	"fmt"
 	"go/token"
 	"go/types"
@@ -102,7 +103,13 @@ func (vc *VC) staticCall(call ssa.CallInstruction, callee *ssa.Function, binding
 	{
 		var acs []*BodyCall
 		where := ""
-		if h := vc.innermostLoop(vc.blk.Index); h >= 0 {
+		lh := vc.innermostLoop(vc.blk.Index)
+		if lh < 0 {
+			// a call on an exit path of a loop (e.g. in a return statement of the body) is not part of
+			// the natural loop; it still belongs to the source loop that contains it
+			lh = vc.srcLoopAt(call.Pos())
+		}
+		if h := lh; h >= 0 {
 			if ls := vc.loopSpecs[h]; ls != nil {
 				acs = append(acs, ls.AtCalls...)
 				where = "loop " + ls.Key + ": "
@@ -113,13 +120,13 @@ func (vc *VC) staticCall(call ssa.CallInstruction, callee *ssa.Function, binding
 		}
 		{
 			for _, ac := range acs {
-				if ac.Fn != vc.e.fname(callee) {
+				if ac.Fn != vc.e.fname(callee) && ac.Fn != libName(callee) {
 					continue
 				}
 				vc.evalPos = call.Pos()
 				ce := vc.envAt(vc.blk, vc.cur, nil)
 				vc.evalPos = token.NoPos
-				if h := vc.innermostLoop(vc.blk.Index); h >= 0 {
+				if h := lh; h >= 0 {
 					for _, hb := range vc.fn.Blocks {
 						if hb.Index == h {
 							hce := vc.envAt(hb, vc.cur, nil)
@@ -494,6 +501,13 @@ func (vc *VC) libCall(call ssa.CallInstruction, callee *ssa.Function, args []Ter
 		}
 		vc.gfact(And(Ge(r, "(- 1)"), Le(Add(r, sub), Ite(Ge(r, "0"), sx("slen", args[0]), Add(sx("slen", args[0]), sub)))))
 		vc.gfact(Imp(Ge(r, "0"), Le(Add(r, sub), sx("slen", args[0]))))
+		// the byte found (single-byte needles): keeps candidate models of the counterexample search realistic
+		switch name {
+		case "strings.IndexByte", "strings.LastIndexByte", "strings.IndexRune":
+			vc.gfact(Imp(And(Ge(r, "0"), Ge(args[1], "0"), Lt(args[1], "128")), Eq(sx("sat", args[0], r), args[1])))
+		case "strings.Index", "strings.LastIndex":
+			vc.gfact(Imp(And(Ge(r, "0"), Eq(sx("slen", args[1]), "1")), Eq(sx("sat", args[0], r), sx("sat", args[1], "0"))))
+		}
 		return true
 	case "strings.TrimSpace", "strings.TrimLeft", "strings.TrimRight", "strings.Trim", "strings.TrimPrefix", "strings.TrimSuffix", "strings.TrimFunc", "strings.TrimLeftFunc", "strings.TrimRightFunc":
 		r := strRes()
@@ -519,7 +533,7 @@ func (vc *VC) libCall(call ssa.CallInstruction, callee *ssa.Function, args []Ter
 		r := strRes()
 		vc.gfact(Ge(r, "0"))
 		return true
-	case "strings.NewReader", "strings.NewReplacer", "bytes.NewReader", "bufio.NewScanner", "bufio.NewReader", "bufio.NewWriter", "bytes.NewBuffer", "bytes.NewBufferString", "json.NewDecoder", "json.NewEncoder", "yaml.NewDecoder", "yaml.NewEncoder", "regexp.MustCompile":
+	case "strings.NewReader", "strings.NewReplacer", "bytes.NewReader", "bufio.NewScanner", "bufio.NewReader", "bufio.NewWriter", "bytes.NewBuffer", "bytes.NewBufferString", "json.NewDecoder", "json.NewEncoder", "yaml.NewDecoder", "yaml.NewEncoder":
 		r := strRes()
 		vc.gfact(Ne(r, "0"))
 		return true
@@ -563,7 +577,14 @@ func (vc *VC) libCall(call ssa.CallInstruction, callee *ssa.Function, args []Ter
 		r := strRes()
 		vc.gfact(And(Ge(r, "(- 1)"), Le(r, "4")))
 		return true
-	case "runewidth.RuneWidth", "runewidth.StringWidth":
+	case "runewidth.StringWidth":
+		// pure: the display width is a function of the text
+		fn := sym("spec:strwidth")
+		vc.declareFun(fn, []string{SStr}, "Int")
+		vc.setVal(v, sx(fn, args[0]))
+		vc.gfact(Ge(sx(fn, args[0]), "0"))
+		return true
+	case "runewidth.RuneWidth":
 		r := strRes()
 		vc.gfact(Ge(r, "0"))
 		return true
@@ -572,6 +593,18 @@ func (vc *VC) libCall(call ssa.CallInstruction, callee *ssa.Function, args []Ter
 		return true
 	case "os.Getenv":
 		strRes()
+		return true
+	case "regexp.Compile", "regexp.MustCompile":
+		// deterministic: the compiled expression is a function of the pattern text
+		fn := sym("spec:recompile")
+		vc.declareFun(fn, []string{SStr}, "Int")
+		r := vc.havocResults(call)
+		if name == "regexp.MustCompile" {
+			vc.gfact(And(Ne(r[0], "0"), Eq(r[0], sx(fn, args[0]))))
+		} else if len(r) == 2 {
+			vc.gfact(Imp(Eq(sx("i_tag", r[1]), "0"), And(Ne(r[0], "0"), Eq(r[0], sx(fn, args[0])))))
+			vc.gfact(Imp(Ne(sx("i_tag", r[1]), "0"), Eq(r[0], "0")))
+		}
 		return true
 	case "(*regexp.Regexp).MatchString":
 		// pure: a function of the compiled expression and the text
@@ -677,6 +710,12 @@ func (vc *VC) sprintfFacts(call ssa.CallInstruction, r Term) {
 		}
 		if cond, ok := vc.nlfreeOfFormat(c.Args[0], c.Args[1]); ok {
 			vc.gfact(Imp(cond, sx("nlfree", r)))
+		}
+		// a format starting with literal text: the result starts with the same character
+		if k, ok := c.Args[0].(*ssa.Const); ok && k.Value != nil && k.Value.Kind() == constant.String {
+			if f := constant.StringVal(k.Value); len(f) > 0 && f[0] != '%' {
+				vc.gfact(And(Ge(sx("slen", r), "1"), Eq(sx("sat", r, "0"), IntLit(int64(f[0])))))
+			}
 		}
 	}
 }
@@ -842,4 +881,22 @@ func (vc *VC) freshWriteChecks(call ssa.CallInstruction, callee *Contract, m *Mo
 			vc.check("fresh-writes", call.Pos(), g+": callee is not declared fresh_writes", "false", vc.con.Props)
 		}
 	}
+}
+
+// srcLoopAt: header of the innermost source loop whose text contains pos (-1 if none).
+func (vc *VC) srcLoopAt(pos token.Pos) int {
+	best := -1
+	var bestLen token.Pos
+	if !pos.IsValid() {
+		return -1
+	}
+	for h, l := range vc.hdrSrc {
+		if l == nil || pos < l.Pos() || pos > l.End() {
+			continue
+		}
+		if n := l.End() - l.Pos(); best < 0 || n < bestLen {
+			best, bestLen = h, n
+		}
+	}
+	return best
 }
